@@ -125,3 +125,104 @@ def replay(rp):
 
 if __name__ == '__main__':
     _helper_main()
+
+
+# ----------------------------------------------------------------------------------------------------------------------
+# history on ONE parser object: every decoder's window after the windows of all the others, on one thread
+
+def _feed_window(parser, name, words, end, tid, lookups, ts):
+    """START, lookups, END through the real parser.feed; the text of the trace the END delivers (or '!exception')."""
+    from . import pipeline as PL, impl, decoders as D
+    from pykdebugparser.kevent import from_kd_buf
+    eid = PL.IDS[name]
+    evs = [from_kd_buf(impl.record_args(ts, words, tid, eid | PL.START))]
+    for i, (path, vn) in enumerate(lookups):
+        evs += [from_kd_buf(r) for r in D.lookup_events(path, vn, tid, ts + 1 + 8 * i)]
+    evs.append(from_kd_buf(impl.record_args(ts + 90, end, tid, eid | PL.END)))
+    out = None
+    try:
+        for e in evs:
+            r = parser.feed(e)
+            if r is not None and e is evs[-1]:
+                out = str(r)
+    except Exception as e:
+        return '!' + core.err_name(e)
+    return out
+
+
+def parser_history_section(rep, rng, tier, prop, name='parser-history'):
+    """What a window reads is a function of the window (and of the context tables the property names), not of the calls
+    the same thread made before on the same parser object.  Every registered START/END decoder gets in-domain windows (its
+    probed words; all words 0o777; all words 0o22 — values whose bits overlap, so that a remembered mask / mode / flag word
+    shows); ONE parser is fed all windows of all decoders (but the trace-domain records and sampler records that write the
+    context tables) on one thread, twice over (so every window also follows every
+    other one), and each text must equal the text of the same window on a fresh parser.  A difference is bisected to the
+    earlier window that causes it."""
+    from . import pipeline as PL, decoders as D
+    from pykdebugparser.traces_parser import TracesParser
+    sec = rep.section(name)
+    tid, end = 11, [0, 7, 0, 0]
+    lookups = [tuple(x) for x in PL.STD_LOOKUPS[:2]]
+    # the records that WRITE the context tables the properties name (thread map, names, global strings: C05 / C08 / C14) are
+    # left out of the history: what they teach is meant to be read by later traces
+    from pykdebugparser.trace_handlers.trace import handlers as table_writers
+    names = [n for n in D.all_handler_names() if n in PL.IDS and n not in table_writers and n not in ('PERF_THD_Data', 'PERF_Event')]
+    windows = []
+    for n in names:
+        base = PL.good_args(n)
+        cands = ([base] if base else []) + [[0o777] * 4, [0o22] * 4]
+        for w in cands:
+            p = TracesParser(dict(PL.CODES), {tid: 42}, {42: 'proc'})
+            t = _feed_window(p, n, list(w), end, tid, lookups, 100)
+            if t is not None and not t.startswith('!'):
+                windows.append((n, list(w), t))
+    sec['rule'] = ('%d in-domain START/END windows of %d decoders (probed words, all words 0o777, all words 0o22) fed to ONE '
+                   'TracesParser on one thread, twice over; every text must equal the text of that window on a fresh parser '
+                   '(oracle on the code alone); a difference is bisected to the earlier window that causes it'
+                   % (len(windows), len({w[0] for w in windows})))
+
+    def run(seq):
+        p = TracesParser(dict(PL.CODES), {tid: 42}, {42: 'proc'})
+        return [_feed_window(p, n, w, end, tid, lookups, 1000 + 200 * i) for i, (n, w, _t) in enumerate(seq)]
+
+    seq = windows + windows
+    got = run(seq)
+    reported = set()
+    for i, ((n, w, fresh), g) in enumerate(zip(seq, got)):
+        sec['cases'] += 1
+        if g == fresh:
+            sec['distinct_nontrivial'] += 1
+            continue
+        if n in reported or len(reported) >= 4:
+            continue
+        reported.add(n)
+        lo, hi = 0, i                            # an earlier window in [lo, hi) changes the text of window i
+        while hi - lo > 1:
+            mid = (lo + hi) // 2
+            if run(seq[lo:mid] + [seq[i]])[-1] != fresh:
+                hi = mid
+            else:
+                lo = mid
+        first = seq[lo]
+        pair = run([first, seq[i]])[-1]
+        hist = [first] if pair != fresh else seq[max(0, i - 3):i]
+        rep.add_failure('render:depends-on-earlier-calls:' + n,
+                        '%s: %s%s on a fresh parser reads %r, after %s on the same parser and thread it reads %r'
+                        % (prop, n, tuple(w), fresh, ', '.join('%s%s' % (a, tuple(b)) for a, b, _ in hist)[:300], g),
+                        {'section': name, 'window': [n, w], 'history': [[a, b] for a, b, _ in hist], 'fresh': fresh})
+
+
+def replay_parser_history(rp):
+    from . import pipeline as PL
+    from pykdebugparser.traces_parser import TracesParser
+    tid, end = 11, [0, 7, 0, 0]
+    lookups = [tuple(x) for x in PL.STD_LOOKUPS[:2]]
+    n, w = rp['window']
+    fresh = _feed_window(TracesParser(dict(PL.CODES), {tid: 42}, {42: 'proc'}), n, w, end, tid, lookups, 100)
+    p = TracesParser(dict(PL.CODES), {tid: 42}, {42: 'proc'})
+    for i, (a, b) in enumerate(rp['history']):
+        _feed_window(p, a, b, end, tid, lookups, 1000 + 200 * i)
+    after = _feed_window(p, n, w, end, tid, lookups, 90000)
+    lines = ['%s%s on a fresh parser        : %r' % (n, tuple(w), fresh),
+             'after %s on the same parser: %r' % (', '.join('%s%s' % (a, tuple(b)) for a, b in rp['history']), after)]
+    return fresh != after, lines
